@@ -425,7 +425,13 @@ func (srv *server) registerClient(connect *packets.Connect, client *client) (ses
 	srv.statsManager.clientConnected(client.opts.ClientID)
 
 	if oldSession != nil {
-		if !oldSession.IsExpired(now) && !connect.CleanStart {
+		// The session expiry interval is measured from the end of the last network connection
+		// (recorded in offlineClients when the client was unregistered), not from the time it connected.
+		expired := false
+		if expiredTime, ok := srv.offlineClients[oldSession.ClientID]; ok {
+			expired = now.After(expiredTime)
+		}
+		if !expired && !connect.CleanStart {
 			sessionResume = true
 		}
 		// clean old session
